@@ -43,6 +43,11 @@ CHECKS = {
          "For every history (every prefix is a history of its own) all of IsExist/IsFile/IsDir/ReadFile/Reader/ReadDir/Lstat on 18 overlapping paths, on the cache and on child views of it, must answer like the overlay model (remote + pending successful operations). The cache's missing tombstones are recorded as known findings by root cause (trigger must be present in the history for the very path), everything else is reported.",
          "Overlay model as in C06; the root-cause matchers are predicates over the history, not over the symptom alone.",
          "DESIGN.md 3/C07"),
+ "C09": ("model_checking",
+         "program enumeration x preemption-bounded exhaustive schedule exploration of the real memfs; each complete interleaving's call/return history and final tree checked for linearizability against the tree reference model (porcupine), plus race oracle",
+         "All unordered pairs of 12 single operations (incl. writer/reader streams held open across a scheduling point) from two initial trees, 8 three-thread, 4 two-operation and 3 open-handle programs are executed under every schedule within the preemption bound (pairs 3/8, triples 2/4). The history must have a sequential explanation that respects real time and yields the final tree; listings unique; no panic, no deadlock; no unordered conflicting access to memfs multi-word fields. Parent-directory creation may become visible earlier than the node itself, and a copy racing with a recursive remove of both ends is judged by the statement's clauses only (complete values, unique names).",
+         "Linearizability is used as the reading of 'takes effect and is visible afterwards'; 2-3 threads; bounds as reported.",
+         "DESIGN.md 3/C09"),
  "C10": ("exploration",
          "exhaustive enumeration of bounded programs (ordered definition calls x request sequences) executed on the real provider and on a reference interpreter, compared request by request",
          "Every ordered sequence of <=2-4 definition calls over 3 names (explicit and default slot per name; factory shapes const/fail/nil/requires X/tolerates X/injects X/injects ?X for every target incl. self, so every cyclic graph on <=3 names occurs) is followed by every sequence of <=1-3 requests (Get, InjectTo with required and optional tags, Keys, late definitions). Outcome class, instance identity, invocation counters and recursion depth must equal the reference (memoised resolver, explicit beats default, frozen after first resolution, cycle = error).",
